@@ -1,0 +1,50 @@
+//go:build verif
+
+package values
+
+// Contracts for the built-in value types, checked by /verif/bin/govc (comment-only file; compiles to nothing).
+// The oracle is strconv itself: ParseBool_ok/val, ParseInt_ok/val, ParseFloat_ok/val are the
+// uninterpreted symbols standing for strconv.ParseBool, ParseInt and ParseFloat.
+
+//@ func (*BoolValue).Set
+//@   requires recv: bo != nil
+//@   ensures ok: ParseBool_ok(s) ==> result == nil && deref(bo) == ParseBool_val(s)
+//@   ensures err: !ParseBool_ok(s) ==> result != nil && deref(bo) == old(deref(bo))
+
+//@ func (*StringValue).Set
+//@   requires recv: sa != nil
+//@   ensures ok: result == nil && deref(sa) == s
+
+//@ func (*IntValue).Set
+//@   requires recv: ia != nil
+//@   ensures ok: ParseInt_ok(s, 10, 64) ==> result == nil && deref(ia) == ParseInt_val(s, 10, 64)
+//@   ensures err: !ParseInt_ok(s, 10, 64) ==> result != nil && deref(ia) == old(deref(ia))
+
+//@ func (*Float64Value).Set
+//@   requires recv: ia != nil
+//@   ensures ok: ParseFloat_ok(s, 64) ==> result == nil && deref(ia) == ParseFloat_val(s, 64)
+//@   ensures err: !ParseFloat_ok(s, 64) ==> result != nil && deref(ia) == old(deref(ia))
+
+//@ func (*StringsValue).Set
+//@   requires recv: sa != nil
+//@   ensures ok: result == nil && deref(sa) == old(deref(sa)) ++ seq(s)
+
+//@ func (*IntsValue).Set
+//@   requires recv: ia != nil
+//@   ensures ok: ParseInt_ok(s, 10, 64) ==> result == nil && deref(ia) == old(deref(ia)) ++ seq(ParseInt_val(s, 10, 64))
+//@   ensures err: !ParseInt_ok(s, 10, 64) ==> result != nil && deref(ia) == old(deref(ia))
+
+//@ func (*Floats64Value).Set
+//@   requires recv: ia != nil
+//@   ensures ok: ParseFloat_ok(s, 64) ==> result == nil && deref(ia) == old(deref(ia)) ++ seq(ParseFloat_val(s, 64))
+//@   ensures err: !ParseFloat_ok(s, 64) ==> result != nil && deref(ia) == old(deref(ia))
+
+//@ func (*StringsValue).Clear
+//@   requires recv: sa != nil
+//@   ensures cleared: len(deref(sa)) == 0
+//@ func (*IntsValue).Clear
+//@   requires recv: ia != nil
+//@   ensures cleared: len(deref(ia)) == 0
+//@ func (*Floats64Value).Clear
+//@   requires recv: ia != nil
+//@   ensures cleared: len(deref(ia)) == 0
